@@ -47,12 +47,20 @@ type c12Layout struct {
 	Obj       string
 }
 
-func c12LayoutFor(prefix string) c12Layout {
+func c12LayoutFor(prefix string) c12Layout { return c12LayoutSeg(prefix, "") }
+
+// c12LayoutSeg: with seg != "" every level of the hierarchy is named by that (special) segment.
+func c12LayoutSeg(prefix, seg string) c12Layout {
 	p := strings.TrimSuffix(prefix, "/")
-	return c12Layout{P: p, Principal: p + "/u/", HomeSet: p + "/u/c/", Coll1: p + "/u/c/k1/", Coll2: p + "/u/c/k2", Obj: p + "/u/c/k1/o1"}
+	if seg == "" {
+		return c12Layout{P: p, Principal: p + "/u/", HomeSet: p + "/u/c/", Coll1: p + "/u/c/k1/", Coll2: p + "/u/c/k2", Obj: p + "/u/c/k1/o1"}
+	}
+	s := "/" + seg
+	return c12Layout{P: p, Principal: p + s + "/", HomeSet: p + s + s + "/", Coll1: p + s + s + s + "/", Coll2: p + s + s + "/k2", Obj: p + s + s + s + s}
 }
 
 type c12Case struct {
+	Seg    string `json:"segment_name,omitempty"`
 	Kind   string `json:"kind"` // caldav | carddav
 	Prefix string `json:"prefix"`
 	Method string `json:"method"`
@@ -123,7 +131,7 @@ func c12Req(c c12Case) harness.Req {
 		if c.Var == "query" {
 			q.Body = `<?xml version="1.0"?><C:` + qroot + ` xmlns:C="` + ns + `" xmlns:D="DAV:"><D:prop><D:getetag/></D:prop>` + filter + `</C:` + qroot + `>`
 		} else {
-			q.Body = `<?xml version="1.0"?><C:` + mroot + ` xmlns:C="` + ns + `" xmlns:D="DAV:"><D:prop><D:getetag/></D:prop><D:href>` + harness.EscapePath(c.Path) + `</D:href></C:` + mroot + `>`
+			q.Body = `<?xml version="1.0"?><C:` + mroot + ` xmlns:C="` + ns + `" xmlns:D="DAV:"><D:prop><D:getetag/></D:prop><D:href>` + xmlEsc(harness.EscapePath(c.Path)) + `</D:href></C:` + mroot + `>`
 		}
 	case "PROPPATCH":
 		q.Header["Content-Type"] = "application/xml"
@@ -145,7 +153,7 @@ func callsNamed(calls []harness.Call, prefix string) []harness.Call {
 }
 
 func c12Judge(c c12Case) (clause, detail string) {
-	l := c12LayoutFor(c.Prefix)
+	l := c12LayoutSeg(c.Prefix, c.Seg)
 	h, snap := c12Handler(c.Kind, c.Prefix, l)
 	resp := harness.Serve(h, c12Req(c))
 	if resp.Panic != "" {
@@ -406,9 +414,26 @@ func init() {
 		var cases []c12Case
 		for _, kind := range []string{"caldav", "carddav"} {
 			ext := map[string]string{"caldav": ".ics", "carddav": ".vcf"}[kind]
+			type pl struct{ pf, seg string }
+			var pls []pl
 			for _, pf := range prefixes {
-				l := c12LayoutFor(pf)
+				pls = append(pls, pl{pf, ""})
+			}
+			if thorough(r) {
+				for _, seg := range c05Names {
+					for _, pf := range c12Prefixes(1) {
+						pls = append(pls, pl{pf, seg})
+					}
+				}
+			}
+			for _, x := range pls {
+				pf := x.pf
+				l := c12LayoutSeg(pf, x.seg)
 				paths := []string{l.P + "/", l.P + "/u", l.P + "/u/c", l.P + "/u/c/k3", l.Obj + ext, l.Obj + ext + "/x"}
+				if x.seg != "" {
+					sg := "/" + x.seg
+					paths = []string{l.P + "/", l.P + sg, l.P + sg + sg, l.P + sg + sg + "/k3", l.Obj + ext, l.Obj + ext + "/x"}
+				}
 				for lvl, base := range paths {
 					for _, slash := range []bool{false, true} {
 						p := strings.TrimSuffix(base, "/")
@@ -419,7 +444,7 @@ func init() {
 							continue
 						}
 						for _, m := range methods {
-							cases = append(cases, c12Case{Kind: kind, Prefix: pf, Method: m.m, Var: m.v, Path: p, Level: lvl})
+							cases = append(cases, c12Case{Kind: kind, Prefix: pf, Seg: x.seg, Method: m.m, Var: m.v, Path: p, Level: lvl})
 						}
 					}
 				}
